@@ -18,7 +18,7 @@ for pid in sorted(props):
         engine='verus-contracts',
         level_claimed=dict(category='proof', text=c.get('level_text', c.get('explanation', '')), design_ref=c.get('design_ref', 'DESIGN.md section 6 ' + pid)),
         level_note='; '.join(c.get('assumptions', [])),
-        technique=c.get('technique', 'contract-based deductive verification (Verus) of functions extracted from /repo on every run'),
+        technique=c.get('technique', 'contract-based deductive verification (Verus) of functions extracted from /repo on every run; violations are replayed on the real code; sentences outside the contracted functions are covered by a bounded search of executable twins on the real code (reported as bounded, never counted as proved)'),
     ))
 m = dict(version=1,
          setup_cmd='python3 tools/setup.py',
